@@ -297,8 +297,7 @@ def ref_texts(case, d):
 def split_header(stdout):
     tree = ast.parse(stdout)
     first = tree.body[0]
-    if not (isinstance(first, ast.Expr) and isinstance(first.value, ast.Constant) and isinstance(first.value.value, str)
-            and "generated by json2python-models" in first.value.value):
+    if not (isinstance(first, ast.Expr) and isinstance(first.value, ast.Constant) and isinstance(first.value.value, str)):
         raise ValueError("first statement is not the header string")
     lines = stdout.split("\n")
     return "\n".join(lines[:first.end_lineno]) + "\n", "\n".join(lines[first.end_lineno:])
@@ -375,7 +374,8 @@ def judge(case, d, argv, r, content):
     except Exception as e:
         W("header-not-first-statement", f"argv {argv}: {type(e).__name__}: {e}")
         return wit, cnt
-    if not any(body == t + nl for t in texts):
+    # the file may or may not end with the newline that print() appends to the printed text
+    if not any(body == t + nl or (case["o"]["output_file"] and body == t + "\n") for t in texts):
         import difflib
         t = min(texts, key=lambda x: sum(1 for _ in difflib.unified_diff(x.split("\n"), body.split("\n"), lineterm="")))
         diff = "\n".join(list(difflib.unified_diff((t + nl).split("\n"), body.split("\n"), "library", "cli", lineterm="", n=0))[:14])
